@@ -72,10 +72,60 @@ PROPS["C15"] = engine_prop("C15", ["proofs/AnchorsSitesCtx.v"], "C15",
     "real engine through a call-counting context.")
 
 EVAL_MODEL = ["gen/CmpGen.v", "gen/ArithGen.v", "gen/OpsGen.v", "gen/EngineGen.v"]
-PROPS["C01"] = dict(proof_files=EVAL_MODEL, props_files=[], harness="C01", theorems=[], trusted=ENGINE_TRUST, assumptions=ENGINE_ASSUME, explanation="(in progress)")
-PROPS["C02"] = dict(proof_files=EVAL_MODEL, props_files=[], harness="C02", theorems=[], trusted=ENGINE_TRUST, assumptions=ENGINE_ASSUME, explanation="(in progress)")
-for _p in ["C04", "C05", "C07", "C08", "C13", "C14"]:
-    PROPS[_p] = dict(proof_files=EVAL_MODEL, props_files=[], harness=_p, theorems=[], trusted=ENGINE_TRUST, assumptions=ENGINE_ASSUME, explanation="(in progress)")
+REFINE_FILES = EVAL_MODEL + ["proofs/AnchorsEngine.v", "proofs/EngineProofs.v", "proofs/EngineTheorems.v", "proofs/FactsProofs.v",
+                             "proofs/ActionTheorems.v", "proofs/SnapInj.v", "proofs/C05Proof.v", "proofs/MemoProofs.v", "proofs/MemoKeep.v",
+                             "proofs/StateTrack.v", "proofs/Refinement.v", "proofs/RefineTheorems.v", "proofs/MemoTheorems.v", "proofs/Findings.v"]
+EVAL_TRUST = ENGINE_TRUST + [
+    "memoising evaluator coq/model/Eval.v (hand-written twin of ast/*.go Evaluate/Assign/Execute + WorkingMemory: values remembered per tree, "
+    "reset by snapshot substring), fact store coq/model/Facts.v, method table coq/model/Methods.v (twin of the harness fact library) - validated against "
+    "the real engine by the scenario correspondence (listener trace, outcome, final facts, method call counts, rule snapshots), not verified against Go",
+    "SPEC evaluator coq/model/Fresh.v (from-scratch semantics; no memory) - it is the reference the theorems are stated against",
+    "operators: coq/gen/CmpGen.v, ArithGen.v, OpsGen.v regenerated from pkg/reflectmath.go and antlr/grulev3.g4 on every run",
+]
+EVAL_ASSUME = ENGINE_ASSUME + [
+    "rules_ok: conditions are side-effect free; actions are assignments over side-effect free expressions, control built-ins and side-effect free calls "
+    "(mutating fact methods are covered by the correspondence only)",
+    "dependency_hypothesis (explicit in every theorem that needs it): a successful assignment to x changes the from-scratch value only of nodes whose "
+    "snapshot contains x's snapshot; proofs/Findings.v proves it cannot be dropped (D2, D3: recorded findings, reproduced on the real engine on every run)",
+    "facts form a tree (no aliasing between fact objects); ASCII strings",
+]
+
+def eval_prop(pid, extra, theorems, expl):
+    return dict(proof_files=REFINE_FILES + extra + ["props/%s.v" % pid], props_files=["props/%s.v" % pid], harness=pid, theorems=theorems,
+                trusted=EVAL_TRUST, assumptions=EVAL_ASSUME, explanation=expl)
+
+PROPS["C01"] = eval_prop("C01", ["proofs/AnchorsSitesMemo.v"], ["C01", "C01_hypothesis_needed"],
+    "C01 is proved for the engine model WITH its working memory started from arbitrary memory contents, for every budget, flag, cancellation point and "
+    "map order: engine_refines_spec (the memoising run equals the run that evaluates everything from scratch) + state tracking of the from-scratch run "
+    "+ the protocol theorem C06. The hypothesis on invalidation is explicit and shown necessary by the D3 witness. Generated rule sets run on the real "
+    "engine and the model; at every ExecuteRuleEntry the harness re-evaluates the rule alone on a deep copy of the facts.")
+PROPS["C02"] = eval_prop("C02", ["proofs/AnchorsSitesMemo.v"], ["C02"],
+    "C02: every active rule whose from-scratch condition is true is reported as candidate in each firing cycle, and at the quiescent exit no active rule's "
+    "condition holds on the final facts; proved via the refinement theorem. Harness as for C01 plus multi-resource knowledge bases and chained activations.")
+PROPS["C04"] = eval_prop("C04", [], ["C04"],
+    "C04: the action list with the working memory equals the in-order from-scratch list; each successful assignment computes its value on the current facts "
+    "and write_target stores it (converted to the destination kind) at exactly the addressed path, every diverging path unchanged (lens laws). The harness "
+    "compares all addressed locations and the frame on the caller's own Go objects.")
+PROPS["C05"] = eval_prop("C05", ["proofs/AnchorsValues.v"], ["C05_operators", "C05_binary", "C05_and_short_circuit", "C05_or_short_circuit", "C05_parentheses",
+                                                          "C05_negation", "C05_arguments", "C05_grammar_levels", "C05_published_table_partial", "C05_published_table_refuted"],
+    "C05: the operator functions regenerated from pkg/reflectmath.go compute the independently written documented semantics (doc_bin) for operands of "
+    "every width; short-circuit, negation, parentheses, argument order proved on the SPEC evaluator; the grammar's operator levels (regenerated) match the "
+    "model and the published table except for `&` (finding D4, refuted lemma + regression probes). Harness: operator x kind x kind grid, random typed "
+    "trees against an independent documented-semantics evaluator, re-renderings, precedence probes.")
+PROPS["C07"] = eval_prop("C07", ["proofs/AnchorsSitesMemo.v"], ["C07"],
+    "C07: snapshots are injective on well-formed trees (sharing by snapshot = sharing of equal trees) and, inside any knowledge base and any sound memory, "
+    "a rule's condition and actions compute what its own text computes on the facts. Harness: rule + generated near-sibling built together vs alone.")
+PROPS["C08"] = eval_prop("C08", ["proofs/AnchorsSitesMemo.v", "proofs/AnchorsSitesFlags.v"], ["C08"],
+    "C08: Execute and FetchMatchingRules from arbitrary memory contents and arbitrary Retracted flags equal the call on a fresh instance; site inventory of "
+    "every memo/flag mutation (incl. range-over-map resets) anchors ResetAll/Reset. Harness: histories of calls on one instance vs fresh instances.")
+PROPS["C13"] = eval_prop("C13", ["proofs/AnchorsSitesMemo.v"], ["C13"],
+    "C13: a successful method call / field read is remembered; a remembered node is answered without touching facts, counters or memory; evaluating "
+    "side-effect free nodes never drops an entry; assignment / Forget drop only nodes whose snapshot/text contains the argument. Harness: call counters "
+    "of the fact library against the bound 1 + number of invalidation events.")
+PROPS["C14"] = eval_prop("C14", ["proofs/AnchorsSitesRecover.v"], ["C14"],
+    "C14: a failing condition leaves facts and memory sound and is the from-scratch verdict; without the flag no condition error is returned; with it the "
+    "error names a rule whose condition fails on that cycle's facts; an action failure names the executing rule, is last, and keeps the completed prefix. "
+    "Harness: faulty rule stream (missing facts, nil, ranges, kinds, division by zero, panicking methods).")
 
 NOT_APPLICABLE = {}
 
@@ -89,7 +139,26 @@ def _eng_text(what):
         technique="Rocq/Coq proof over an abstract engine automaton + source-extracted anchors + trace correspondence (vm_compute)",
     )
 
+def _eval_text(what):
+    return dict(
+        text="Machine-checked proof (Coq 8.16.1) over a model of the engine WITH its working memory (memoising evaluator, fact store, engine loop): " + what +
+             " Tied to the code by operator/anchor tables regenerated from the source on every run and by replaying generated rule sets on the real engine "
+             "and the model (listener trace, outcome, final facts, call counts, snapshots), plus direct oracles on the implementation.",
+        note="Trust: Coq kernel (+vm_compute), hand-written evaluator/engine models validated by correspondence, translator, harness. Hypotheses explicit in the "
+             "theorems: side-effect free conditions/expressions (rules_ok) and the dependency hypothesis on invalidation (shown necessary; D2/D3 are recorded "
+             "findings). Only primitive int/float operations appear under Print Assumptions.",
+        technique="Rocq/Coq proof: refinement of a from-scratch spec engine by the memoising engine + differential correspondence (vm_compute)",
+    )
+
 MANIFEST_TEXT = {
+    "C01": _eval_text("every execution is of an active rule whose condition, evaluated from scratch on the facts of that moment, is true (from any memory contents)."),
+    "C02": _eval_text("each active rule whose from-scratch condition is true is a candidate of its cycle; at a quiescent exit no active rule's condition holds on the final facts."),
+    "C04": _eval_text("actions run in textual order on the facts left by the previous one; an assignment stores exactly the computed (converted) value at exactly the addressed path, all diverging paths unchanged."),
+    "C05": _eval_text("the operators regenerated from reflectmath.go compute the documented semantics for every operand width; short-circuit, negation, parentheses, argument order; grammar levels match the published table except `&` (recorded finding D4)."),
+    "C07": _eval_text("snapshot sharing is injective on trees, and a rule inside any knowledge base decides and does what its own text does on the facts."),
+    "C08": _eval_text("Execute/FetchMatchingRules on an instance with arbitrary remembered values and Retracted flags equal the call on a fresh instance; Fetch leaves the facts alone."),
+    "C13": _eval_text("a computed method call / field read is remembered and answered without re-evaluation until an assignment or Forget whose text occurs in it."),
+    "C14": _eval_text("failing conditions/actions are contained: facts and memory stay sound, errors name the failing rule, completed statements keep their effect, nothing fires afterwards."),
     "C03": _eng_text("at most one firing per cycle, of a candidate with maximal salience; each rule evaluated at most once per cycle."),
     "C06": _eng_text("termination within MaxCycle+1 passes, at most MaxCycle firings, cycle-limit error exactly when one more firing is needed, nil only at quiescence/Complete, consecutive cycle numbers and a faithful evaluation/execution protocol."),
     "C10": _eng_text("a retracted name is neither evaluated nor fired again in the call, all other active rules keep being evaluated, Complete ends the run after the whole action list."),
